@@ -100,7 +100,7 @@ func userProps(r *RNG, size int, dom Domain) []ref.Prop {
 	if size >= Medium && r.Chance(1, 6) {
 		n = 4 + r.Intn(12)
 		if r.Chance(1, 4) {
-			n = Pick(r, 127, 128, 129, 255, 256, 257) // element counts on the steps, too
+			n = StepCount(r) // element counts on the steps, too
 			size = Small
 		}
 	}
@@ -135,7 +135,7 @@ func propsFor(r *RNG, m maskT, prefix string, ctx int, size int, dom Domain) []r
 			if m.has("subids") {
 				n := 1 + r.Intn(3)
 				if size >= Medium && r.Chance(1, 12) {
-					n = Pick(r, 127, 128, 255, 256)
+					n = StepCount(r)
 				}
 				for i := 0; i < n; i++ {
 					out = append(out, propValue(r, id, size, dom))
@@ -192,6 +192,9 @@ func Packet(r *RNG, t int, mask uint64, size int, dom Domain) *ref.Packet {
 		p.Props = propsFor(r, m, "", ref.TConnect, size, dom)
 		if m.has("will") {
 			p.ConnFlags |= ref.CFWill
+			if r.Chance(1, 6) {
+				p.WillExtra = byte(1 + r.Intn(15)) // a received PUBLISH reused as the will
+			}
 			if m.has("will.retain") {
 				p.ConnFlags |= ref.CFWillRetain
 			}
@@ -255,7 +258,7 @@ func Packet(r *RNG, t int, mask uint64, size int, dom Domain) *ref.Packet {
 		if m.has("more") {
 			n = 2 + r.Intn(4)
 			if size >= Medium && r.Chance(1, 8) {
-				n = Pick(r, 20+r.Intn(200), 127, 128, 255, 256, 257)
+				n = Pick(r, 20+r.Intn(200), StepCount(r), StepCount(r))
 			}
 		}
 		for i := 0; i < n; i++ {
@@ -281,7 +284,7 @@ func Packet(r *RNG, t int, mask uint64, size int, dom Domain) *ref.Packet {
 		if m.has("more") {
 			n = 2 + r.Intn(6)
 			if size >= Medium && r.Chance(1, 8) {
-				n = Pick(r, 100+r.Intn(400), 127, 128, 255, 256, 16383, 16384, 65535)
+				n = Pick(r, 100+r.Intn(400), StepCount(r), StepCount(r), 16383, 16384, 65535)
 			}
 		}
 		for i := 0; i < n; i++ {
@@ -294,7 +297,7 @@ func Packet(r *RNG, t int, mask uint64, size int, dom Domain) *ref.Packet {
 		if m.has("more") {
 			n = 2 + r.Intn(4)
 			if size >= Medium && r.Chance(1, 8) {
-				n = Pick(r, 20+r.Intn(200), 127, 128, 255, 256, 257)
+				n = Pick(r, 20+r.Intn(200), StepCount(r), StepCount(r))
 			}
 		}
 		for i := 0; i < n; i++ {
@@ -624,4 +627,11 @@ func GiantPacket(r *RNG, rem int) *ref.Packet {
 		p.Payload[len(p.Payload)-1] = 0xa5
 	}
 	return p
+}
+
+// StepCount picks an element count for a list: the counts around the steps of
+// length fields and around the sizes at which batching, growth policies and
+// fixed-size tables change behaviour.
+func StepCount(r *RNG) int {
+	return Pick(r, 8, 9, 10, 15, 16, 17, 31, 32, 33, 63, 64, 65, 100, 127, 128, 129, 255, 256, 257, 511, 512, 513, 1000, 1023, 1024, 1025)
 }
